@@ -5,7 +5,10 @@ package main
 
 import (
 	"bufio"
+	"context"
+	"encoding/hex"
 	"encoding/json"
+	"flag"
 	"fmt"
 	"os"
 	"runtime"
@@ -33,6 +36,7 @@ type Op struct {
 	Entries []EntOp `json:"e,omitempty"` // tr: the entries collected before Submit
 	Us      int     `json:"us,omitempty"`
 	Nil     bool    `json:"n,omitempty"` // via: log through an explicitly nil tracer (a context without tracer)
+	F       bool    `json:"f,omitempty"` // tr: collect through the other half of the tracer's methods (Collectf)
 }
 
 // The call sites of the origin packages ("variants"): a line is identified by message, level, file and line,
@@ -44,6 +48,7 @@ const (
 	vCollect = 2 // orgX.Collect: t.Info(msg) … through a possibly-nil tracer
 	vDyn     = 3 // orgX.LogDyn:  f(msg) with f = log.Info … (function value)
 	vVia     = 4 // orgX.Via:     f(t, msg) with f = (*ContextTracer).Info … through a possibly-nil tracer
+	vCollF   = 5 // orgX.Collectf: t.Infof/… — the other half of the tracer's methods
 )
 
 // EntOp is one entry collected by a context tracer.
@@ -85,6 +90,45 @@ type Spec struct {
 	Light       bool           `json:"light,omitempty"`        // cheap observation: no writer trace, adapter records only (goroutine, item, duplicates); plain calls only
 	Cap         int            `json:"cap,omitempty"`          // 0: the logger's own buffer capacity (1024); else a small one (verif helper)
 	Glue        []string       `json:"glue,omitempty"`         // start-twice | shutdown-twice | nil-adapter | late-adapter | pre-start | nil-tracer | concurrent-shutdown
+	FlagLog     string         `json:"flag_log,omitempty"`     // -log flag given to Start ("" = not given)
+	FlagPkgs    string         `json:"flag_pkgs,omitempty"`    // -plog flag given to Start
+	Sweep       bool           `json:"sweep,omitempty"`        // the last producer logs once per origin × severity and runs alone, first: measures the levels in force after Start
+}
+
+// levelNames is the harness' own reading of the documented level names of the -log / -plog flags
+// ("[trace|debug|info|warning|error|critical]", case-insensitive).
+var levelNames = map[string]int{"trace": 1, "debug": 2, "info": 3, "warning": 4, "error": 5, "critical": 6}
+
+// startCfg is the harness' reading of what Start makes of the flags: -log sets the global level (unknown
+// name: info); a non-empty -plog replaces the package levels by its name=level pairs and activates them; the
+// first pair that is not name=<known level> is "ignored" together with everything after it.
+func startCfg(pre cfgSnap, lf, pf string) cfgSnap {
+	c := pre
+	if lf != "" {
+		c.Glob = levelNames[strings.ToLower(lf)]
+		if c.Glob == 0 {
+			c.Glob = 3
+		}
+	}
+	if pf != "" {
+		m := map[string]int{}
+		for _, pair := range strings.Split(pf, ",") {
+			kv := strings.Split(pair, "=")
+			if len(kv) != 2 || levelNames[strings.ToLower(kv[1])] == 0 {
+				break
+			}
+			m[kv[0]] = levelNames[strings.ToLower(kv[1])]
+		}
+		c.Active, c.Pkgs = true, m
+	}
+	return c
+}
+
+func hexOrDash(s string) string {
+	if s == "" {
+		return "-"
+	}
+	return hex.EncodeToString([]byte(s))
 }
 
 var orgNames = []string{"orga", "orgb", "orgc"}
@@ -94,16 +138,23 @@ type orgFns struct {
 	via            func(*log.ContextTracer, int, string)
 	tracer         func() *log.ContextTracer
 	collect        func(*log.ContextTracer, []orga.Entry, func())
+	collectf       func(*log.ContextTracer, []orga.Entry, func())
 }
 
 var orgs = []orgFns{
-	{orga.Log, orga.Logf, orga.LogDyn, orga.Via, orga.Tracer, orga.Collect},
+	{orga.Log, orga.Logf, orga.LogDyn, orga.Via, orga.Tracer, orga.Collect, orga.Collectf},
 	{orgb.Log, orgb.Logf, orgb.LogDyn, orgb.Via, orgb.Tracer, func(t *log.ContextTracer, e []orga.Entry, f func()) {
 		x := make([]orgb.Entry, len(e))
 		for i := range e {
 			x[i] = orgb.Entry(e[i])
 		}
 		orgb.Collect(t, x, f)
+	}, func(t *log.ContextTracer, e []orga.Entry, f func()) {
+		x := make([]orgb.Entry, len(e))
+		for i := range e {
+			x[i] = orgb.Entry(e[i])
+		}
+		orgb.Collectf(t, x, f)
 	}},
 	{orgc.Log, orgc.Logf, orgc.LogDyn, orgc.Via, orgc.Tracer, func(t *log.ContextTracer, e []orga.Entry, f func()) {
 		x := make([]orgc.Entry, len(e))
@@ -111,6 +162,12 @@ var orgs = []orgFns{
 			x[i] = orgc.Entry(e[i])
 		}
 		orgc.Collect(t, x, f)
+	}, func(t *log.ContextTracer, e []orga.Entry, f func()) {
+		x := make([]orgc.Entry, len(e))
+		for i := range e {
+			x[i] = orgc.Entry(e[i])
+		}
+		orgc.Collectf(t, x, f)
 	}},
 }
 
@@ -238,6 +295,14 @@ type callRec struct {
 	entries []int
 }
 
+// entID identifies a collected entry of a submission: its text and its level.
+func entID(item, lvl int) int {
+	if item < 0 {
+		return 0
+	}
+	return item*8 + lvl
+}
+
 func (c *child) key(r callRec) int {
 	if c.spec.Light {
 		return itemKey(r.item, r.lvl, 0, 0, false) // the cheap adapter does not look at call sites (messages are unique there)
@@ -255,6 +320,7 @@ type prodState struct {
 	opCalls    int // calls completed within the op in progress
 	done       bool
 	curVariant int // call-site variant of the call in progress (written and read on the producer goroutine)
+	curLvl     int // the severity that call is made at (as the program says, not as the logger reports it)
 }
 
 type child struct {
@@ -267,6 +333,7 @@ type child struct {
 	siteVar map[int]int    // site id → call-site variant
 	varSite map[[3]int]int // (variant, origin, level or 0) → site id: every variant is ONE source line
 	siteBad string
+	sweepHit map[int]bool
 	cfgMu   sync.Mutex // serialises level changes (control goroutine, lvl ops of producers)
 	cur     cfgSnap
 	info    map[any]string // line pointer → "id:msgkey:lvl:site:tr" (id = gid.seq)
@@ -376,9 +443,13 @@ func (c *child) sink(point string, args ...any) {
 			if gid >= len(c.spec.Prods) {
 				seq = 0 // replayed pre-Start lines: no program order to compare the channel order with
 			}
+			if c.spec.Sweep && gid == len(c.spec.Prods)-1 {
+				_, it, _ := parseMsg(m.Text())
+				c.sweepHit[it] = true
+			}
 			c.info[args[0]] = fmt.Sprintf("%d.%d:%s", gid, seq, tok)
 			if gid < len(c.spec.Prods) {
-				c.noteSite(sid, ps.curVariant, org, int(m.Severity()))
+				c.noteSite(sid, ps.curVariant, org, ps.curLvl)
 			}
 			c.nLines.Add(1)
 			ps.cur = []string{fmt.Sprintf("p %d %d line", gid, ps.seq)}
@@ -466,7 +537,7 @@ func (c *child) Write(m log.Message, dups uint64) {
 			if !ok {
 				it = -1
 			}
-			ids = append(ids, strconv.Itoa(it))
+			ids = append(ids, strconv.Itoa(entID(it, int(e.Severity()))))
 		}
 		o += ":e" + strings.Join(ids, ",")
 	}
@@ -577,34 +648,47 @@ func (c *child) runProducer(gid int, prog []Op, wg *sync.WaitGroup) {
 			case "dyn":
 				f, v = orgs[op.Org].dyn, vDyn
 			}
-			ps.curVariant = v
+			ps.curVariant, ps.curLvl = v, op.Lvl
 			e1 = c.epoch.Load()
 			f(op.Lvl, msgText(gid, op.Item), op.Reps, func() { rec(callRec{item: op.Item, lvl: op.Lvl, org: op.Org, variant: v, kind: 'p'}) })
 		case "tr":
-			ps.curVariant = vCollect
+			vC, collect := vCollect, orgs[op.Org].collect
+			if op.F {
+				vC, collect = vCollF, orgs[op.Org].collectf
+			}
+			ps.curVariant = vC
 			t := orgs[op.Org].tracer()
 			es := make([]orga.Entry, len(op.Entries))
 			ids := make([]int, len(op.Entries))
 			for k, e := range op.Entries {
 				es[k] = orga.Entry{Lvl: e.Lvl, Msg: msgText(gid, e.Item)}
-				ids[k] = e.Item
+				ids[k] = entID(e.Item, e.Lvl)
 			}
 			e1 = c.epoch.Load()
 			if t == nil {
 				// no tracer (trace level not in force for this origin): every entry is a plain call
 				k := 0
-				orgs[op.Org].collect(nil, es, func() {
-					rec(callRec{item: op.Entries[k].Item, lvl: op.Entries[k].Lvl, org: op.Org, variant: vCollect, kind: 'p'})
+				if len(es) > 0 {
+					ps.curLvl = es[0].Lvl
+				}
+				collect(nil, es, func() {
+					rec(callRec{item: op.Entries[k].Item, lvl: op.Entries[k].Lvl, org: op.Org, variant: vC, kind: 'p'})
 					k++
+					if k < len(es) {
+						ps.curLvl = es[k].Lvl
+					}
 				})
 				break
 			}
-			orgs[op.Org].collect(t, es, func() {})
+			collect(t, es, func() {})
 			e1 = c.epoch.Load()
+			if len(es) > 0 {
+				ps.curLvl = es[len(es)-1].Lvl
+			}
 			t.Submit()
 			if len(es) > 0 {
 				last := op.Entries[len(es)-1]
-				rec(callRec{item: last.Item, lvl: last.Lvl, org: op.Org, variant: vCollect, kind: 't', entries: ids[:len(ids)-1]})
+				rec(callRec{item: last.Item, lvl: last.Lvl, org: op.Org, variant: vC, kind: 't', entries: ids[:len(ids)-1]})
 			}
 		case "via":
 			// one call site, reached through a possibly-nil tracer: Entries (if a tracer is asked for) and then
@@ -622,10 +706,12 @@ func (c *child) runProducer(gid int, prog []Op, wg *sync.WaitGroup) {
 				if t == nil {
 					for _, e := range ents {
 						e1 = c.epoch.Load()
+						ps.curLvl = e.Lvl
 						via(nil, e.Lvl, msgText(gid, e.Item))
 						rec(callRec{item: e.Item, lvl: e.Lvl, org: op.Org, variant: vVia, kind: 'p'})
 					}
 					e1 = c.epoch.Load()
+					ps.curLvl = op.Lvl
 					via(nil, op.Lvl, msgText(gid, op.Item))
 					rec(callRec{item: op.Item, lvl: op.Lvl, org: op.Org, variant: vVia, kind: 'p'})
 					continue
@@ -633,10 +719,11 @@ func (c *child) runProducer(gid int, prog []Op, wg *sync.WaitGroup) {
 				ids := make([]int, len(ents))
 				for k, e := range ents {
 					via(t, e.Lvl, msgText(gid, e.Item))
-					ids[k] = e.Item
+					ids[k] = entID(e.Item, e.Lvl)
 				}
 				via(t, op.Lvl, msgText(gid, op.Item))
 				e1 = c.epoch.Load()
+				ps.curLvl = op.Lvl
 				t.Submit()
 				rec(callRec{item: op.Item, lvl: op.Lvl, org: op.Org, variant: vVia, kind: 't', entries: ids})
 			}
@@ -663,12 +750,13 @@ func childMain() {
 	if dn, err := os.OpenFile(os.DevNull, os.O_WRONLY, 0); err == nil {
 		os.Stdout = dn
 	}
-	c := &child{spec: spec, sites: map[string]int{}, files: map[string]int{}, siteVar: map[int]int{}, varSite: map[[3]int]int{}, info: map[any]string{}}
+	c := &child{spec: spec, sites: map[string]int{}, files: map[string]int{}, siteVar: map[int]int{}, varSite: map[[3]int]int{}, info: map[any]string{}, sweepHit: map[int]bool{}}
 	c.rng.Store(uint64(spec.Seed)*2654435761 + 88172645463325252)
 	for range spec.Prods {
 		c.prods = append(c.prods, &prodState{})
 	}
-	first := cfgSnap{Glob: spec.Glob, Active: spec.Pkgs != nil, Pkgs: spec.Pkgs}
+	pre := cfgSnap{Glob: spec.Glob, Active: spec.Pkgs != nil, Pkgs: spec.Pkgs}
+	first := startCfg(pre, spec.FlagLog, spec.FlagPkgs) // what has to be in force once Start has read the flags
 	c.cfgs = []cfgSnap{first}
 	c.cur = first
 
@@ -681,27 +769,44 @@ func childMain() {
 	if glue["nil-adapter"] {
 		log.SetAdapter(nil) // documented no-op
 	}
-	preStart := 0
+	log.SetLogLevel(log.Severity(spec.Glob))
+	if spec.Pkgs != nil {
+		log.SetPkgLevels(toSev(spec.Pkgs))
+	}
+	preStart, preTracer := 0, 0
 	if glue["pre-start"] {
 		// logged before Start: outside the statement (replayed by helper goroutines in any order);
-		// counted, must not disturb anything else. Uses a goroutine id nobody else has.
+		// counted, must not disturb anything else. Uses goroutine ids nobody else has: one for plain lines,
+		// one for a tracer submission made before Start (kept and submitted once the logger runs).
 		preStart = 3
-		c.prods = append(c.prods, &prodState{}) // pseudo goroutine for the replayed lines
+		c.prods = append(c.prods, &prodState{}, &prodState{}) // pseudo goroutines for the replayed lines
 		for i := 0; i < preStart; i++ {
 			log.Warning(msgText(len(spec.Prods), 1))
+		}
+		if ctx, t := log.AddTracer(context.Background()); t != nil {
+			if _, again := log.AddTracer(ctx); again != nil {
+				fmt.Fprintln(os.Stderr, "child: AddTracer handed out a second tracer for one context")
+				os.Exit(5)
+			}
+			preTracer = 1
+			t.Warning(msgText(len(spec.Prods)+1, 1))
+			t.Submit()
 		}
 	}
 	if spec.Paced {
 		log.EnableScheduling()
 	}
-	log.SetLogLevel(log.Severity(spec.Glob))
-	if spec.Pkgs != nil {
-		log.SetPkgLevels(toSev(spec.Pkgs))
+	if spec.FlagLog != "" {
+		_ = flag.Set("log", spec.FlagLog)
 	}
-	if err := log.Start(); err != nil {
+	if spec.FlagPkgs != "" {
+		_ = flag.Set("plog", spec.FlagPkgs)
+	}
+	if err := log.Start(); err != nil && spec.FlagPkgs == "" { // (a malformed -plog pair is reported as an error, the logger runs)
 		fmt.Fprintln(os.Stderr, "child: start:", err)
 		os.Exit(4)
 	}
+	globAfterStart := int(log.GetLogLevel())
 	if spec.Cap > 0 {
 		log.VerifSetBufferCap(spec.Cap)
 	}
@@ -753,6 +858,25 @@ func childMain() {
 			}
 		}()
 	}
+	// the levels in force after Start, measured on the real logger: the sweep producer logs once per origin and
+	// severity, alone, before anything else happens; thr[o] = lowest severity that passed the filter
+	startLine := ""
+	if spec.Sweep && len(spec.Prods) > 0 {
+		var w1 sync.WaitGroup
+		w1.Add(1)
+		c.runProducer(len(spec.Prods)-1, spec.Prods[len(spec.Prods)-1], &w1)
+		c.mu.Lock()
+		thr := [3]int{7, 7, 7}
+		for it := range c.sweepHit {
+			o, l := (it-1)/6, (it-1)%6+1
+			if o >= 0 && o < 3 && l < thr[o] {
+				thr[o] = l
+			}
+		}
+		c.mu.Unlock()
+		startLine = fmt.Sprintf("start %s %s %s %d %d %d %d", hexOrDash(spec.FlagLog), hexOrDash(spec.FlagPkgs),
+			strings.TrimPrefix(pre.line(0), "cfg 0 "), thr[0], thr[1], thr[2], globAfterStart)
+	}
 	// level changes concurrent with the producers
 	aux.Add(1)
 	go func() {
@@ -769,6 +893,9 @@ func childMain() {
 
 	var wg sync.WaitGroup
 	for gid, prog := range spec.Prods {
+		if spec.Sweep && gid == len(spec.Prods)-1 {
+			continue // ran first
+		}
 		wg.Add(1)
 		go c.runProducer(gid, prog, &wg)
 	}
@@ -838,6 +965,9 @@ func childMain() {
 	for i, cf := range c.cfgs {
 		fmt.Fprintln(w, cf.line(i))
 	}
+	if startLine != "" {
+		fmt.Fprintln(w, startLine)
+	}
 	if c.siteBad != "" {
 		fmt.Fprintln(os.Stderr, "child: call sites are not what the item keys assume:", c.siteBad)
 		os.Exit(5)
@@ -846,7 +976,11 @@ func childMain() {
 	for gid, ps := range c.prods {
 		if gid >= len(spec.Prods) {
 			// lines logged before Start: optional, any form
-			fmt.Fprintf(w, "item %d %d %d 0 x u*%d\n", gid, itemKey(1, 4, 0, 0, false), 4, preStart)
+			if gid == len(spec.Prods) {
+				fmt.Fprintf(w, "item %d %d %d 0 x u*%d\n", gid, itemKey(1, 4, 0, 0, false), 4, preStart)
+			} else if preTracer > 0 {
+				fmt.Fprintf(w, "item %d %d %d 0 x u*%d\n", gid, itemKey(1, 4, 0, 0, !spec.Light), 4, preTracer) // (the cheap adapter does not look at tracers)
+			}
 			ps.mu.Lock()
 			for _, p := range ps.paths {
 				fmt.Fprintln(w, p)
@@ -932,11 +1066,15 @@ func childMain() {
 					}
 				case "tr":
 					// either submitted as one tracer line or (nil tracer) entry by entry: leave every entry optional
+					vC := vCollect
+					if op.F {
+						vC = vCollF
+					}
 					for k := min(doneHere, len(op.Entries)); k < len(op.Entries); k++ {
-						opt(op.Entries[k].Item, op.Entries[k].Lvl, vCollect, 'x')
+						opt(op.Entries[k].Item, op.Entries[k].Lvl, vC, 'x')
 					}
 					if n := len(op.Entries); n > 0 && doneHere == 0 {
-						opt(op.Entries[n-1].Item, op.Entries[n-1].Lvl, vCollect, 'X')
+						opt(op.Entries[n-1].Item, op.Entries[n-1].Lvl, vC, 'X')
 					}
 				case "via":
 					// every repetition that may still be running: its lines as plain calls or as one submission
